@@ -22,6 +22,7 @@ import (
 	"pgregory.net/rapid"
 
 	"github.com/bluenviron/mediamtx/internal/defs"
+	"github.com/bluenviron/mediamtx/internal/logger"
 	kit "github.com/bluenviron/mediamtx/internal/verifkit"
 )
 
@@ -485,8 +486,13 @@ type c36World struct {
 	moq    *c36MoQ
 }
 
+// c36NilLog: the handler may log
+type c36NilLog struct{}
+
+func (c36NilLog) Log(logger.Level, string, ...any) {}
+
 func (w *c36World) metrics() *Metrics {
-	m := &Metrics{}
+	m := &Metrics{Parent: c36NilLog{}}
 	m.SetPathManager(w.pm)
 	// the setters receive interface values; a nil *fake must not be stored as a non-nil interface
 	// (core passes either a live server or leaves the field nil)
